@@ -1,7 +1,7 @@
 """C16 typed wiring: Wiring.tla (connection rule + executor as a scheduling machine) judges recorded diagram constructions and executions of the real
 WiringDiagram / DiagramExecutor: seeded random diagrams (cycles, fan-in, missing sources, mislabelled outputs, external inputs) and an exhaustive
 family of two-module diagrams."""
-import itertools, concurrent.futures as cf
+import signal, itertools, concurrent.futures as cf
 from . import base, tlc, flat
 
 BAD = ["wrongtype", "lower", "higher", "missing", "extra"]
@@ -76,6 +76,17 @@ def small_family():
     return out
 
 
+HANG_SECONDS = 10.0
+
+
+class Hung(BaseException):
+    pass
+
+
+def _on_alarm(signum, frame):
+    raise Hung()
+
+
 def run_diagram(M, spec):
     wa, rt, ty = M
     DT = {d.value: d for d in ty.DataType}
@@ -144,9 +155,12 @@ def run_diagram(M, spec):
             else:
                 val = rt.TypedValue(DT[port["dt"]], IL[port["integ"] - 1], {"src": "external"})
         external.setdefault(e["m"], {})[e["p"]] = val
-    o = {"attempts": attempts, "error": False, "order": [], "other_exception": ""}
+    o = {"attempts": attempts, "error": False, "order": [], "other_exception": "", "hung": False}
+    signal.signal(signal.SIGALRM, _on_alarm)
+    signal.setitimer(signal.ITIMER_REAL, HANG_SECONDS)      # "raise a wiring error instead of looping": a run that does not return is observed, not waited for
     try:
         rep = ex.execute(external_inputs=external)
+        signal.setitimer(signal.ITIMER_REAL, 0)
         o["order"] = list(rep.execution_order)
         for mn, me in rep.modules.items():
             for p, v in me.inputs.items():
@@ -154,9 +168,13 @@ def run_diagram(M, spec):
                 delivered.append({"m": mn, "p": p, "dt": v.data_type.value, "integ": int(v.integrity), "src": src.get("src", "external"), "srcport": src.get("port", "")})
     except wa.WiringError:
         o["error"] = True
+    except Hung:
+        o["hung"] = True
     except Exception as exn:
         o["error"], o["other_exception"] = True, "%s: %s" % (type(exn).__name__, exn)
-    o["calls"], o["delivered"] = calls, delivered
+    finally:
+        signal.setitimer(signal.ITIMER_REAL, 0)
+    o["calls"], o["delivered"] = calls[:200], delivered[:200]
     o["caps"] = sorted(c.value for c in diag.required_capabilities())
     d = {"mods": spec["mods"], "wires": [{"sm": w.src_module, "sp": w.src_port, "dm": w.dst_module, "dp": w.dst_port} for w in diag.wires], "ext": spec["ext"]}
     return {"d": d, "o": o}
